@@ -463,6 +463,23 @@ func runC20(c *Check, a *Analysis) {
 		c.Ob("R-EXIT-EDGE", "(*Client).Fallback#timer goroutine exits on <-c.done", fb.Pos(), ok, ifs(!ok, "the fallback timer goroutine does not observe Client.done: it outlives Close"))
 	}
 
+	c.Rule("R-CLOSE-SIGNALS", "Client.Close and Transport.Close close the done channel their background goroutines wait on (on the compare-and-swap success path)", 2)
+	for _, spec := range []struct{ fn, st string }{{"(*Client).Close", "Client"}, {"(*Transport).Close", "Transport"}} {
+		fn := p.Fn(spec.fn)
+		if fn == nil {
+			c.Undecided("R-CLOSE-SIGNALS", spec.fn+" not found")
+			continue
+		}
+		found := false
+		eachInstr(fn, func(in ssa.Instruction) {
+			cc, ok := in.(*ssa.Call)
+			if ok && calleeName(cc) == "builtin close" && isLoadOf(p.canon(cc.Call.Args[0]), spec.st, "done") {
+				found = true
+			}
+		})
+		c.Ob("R-CLOSE-SIGNALS", spec.fn+"#close(done)", fn.Pos(), found, ifs(!found, spec.fn+" never closes the done channel: the periodic goroutine (and Fallback timers) outlive Close"))
+	}
+
 	// ---- R-CLOSE-ONCE
 	c.Rule("R-CLOSE-ONCE", "every close(ch) is reachable only through the success edge of a compare-and-swap; Conn.Close tests and sets `closing` in one critical section and reports ErrShutdown when already set; Transport.Close/Server.Close return nil; Client.Close returns only its RoundTripper's result; codec Close sets the closed flag before closing the transport", 8)
 	for _, fn := range p.Fns {
